@@ -44,7 +44,7 @@ func (P *Prog) verifyFunc(key string, c11 bool) (res *FuncResult) {
 	}
 	x := &Exec{P: P, em: newEmitter(), top: fn, topSpec: spec, topKey: key, leaves: map[string]*LeafInfo{},
 		written: map[string]*WriteSet{}, notes: map[string]bool{}, assumedPanics: map[string]bool{}, strLits: map[string]string{},
-		siteHits: map[string]int{}, sitePost: map[string]*State{}, usedSpecs: map[string]bool{}, assumedSpecs: map[string]bool{}, inlined: map[string]bool{}, inC11: c11, assumedClauses: map[string]bool{}, preds: map[string]*predDef{}, unfolded: map[string]bool{}, transferred: map[string]string{}, xferOwner: map[string]string{}, borrow: map[string][2]string{}, wfDone: map[string]bool{}}
+		siteHits: map[string]int{}, sitePost: map[string]*State{}, siteRes: map[string]Value{}, usedSpecs: map[string]bool{}, assumedSpecs: map[string]bool{}, inlined: map[string]bool{}, inC11: c11, assumedClauses: map[string]bool{}, preds: map[string]*predDef{}, unfolded: map[string]bool{}, transferred: map[string]string{}, xferOwner: map[string]string{}, borrow: map[string][2]string{}, wfDone: map[string]bool{}}
 	res.Em = x.em
 	if spec != nil {
 		x.defProps = spec.Props
@@ -350,7 +350,7 @@ func (P *Prog) verifyLemma(key string, spec *FuncSpec) (res *FuncResult) {
 	res = &FuncResult{Key: key}
 	x := &Exec{P: P, em: newEmitter(), topSpec: spec, topKey: key, leaves: map[string]*LeafInfo{},
 		written: map[string]*WriteSet{}, notes: map[string]bool{}, assumedPanics: map[string]bool{}, strLits: map[string]string{},
-		siteHits: map[string]int{}, sitePost: map[string]*State{}, usedSpecs: map[string]bool{}, assumedSpecs: map[string]bool{}, inlined: map[string]bool{}, assumedClauses: map[string]bool{}, preds: map[string]*predDef{}, unfolded: map[string]bool{}, transferred: map[string]string{}, xferOwner: map[string]string{}, borrow: map[string][2]string{}, wfDone: map[string]bool{}}
+		siteHits: map[string]int{}, sitePost: map[string]*State{}, siteRes: map[string]Value{}, usedSpecs: map[string]bool{}, assumedSpecs: map[string]bool{}, inlined: map[string]bool{}, assumedClauses: map[string]bool{}, preds: map[string]*predDef{}, unfolded: map[string]bool{}, transferred: map[string]string{}, xferOwner: map[string]string{}, borrow: map[string][2]string{}, wfDone: map[string]bool{}}
 	res.Em = x.em
 	x.defProps = spec.Props
 	defer func() {
